@@ -24,6 +24,7 @@ def run(ctx):
           ("MC_Router", "MC_Router.cfg" if q else "MC_Router_deep.cfg", dict(workers=8, timeout=3000)),
           ("MC_Router", "MC_Router_noboundary.cfg", dict(workers=2, expect_violation=True))]
     gen = [("RouterGen", "Gen_Router_c01.cfg" if q else "Gen_Router_c01_deep.cfg", dict(workers=6, timeout=1200)),
+           ("RouterGen", "Gen_Router_c01_dash.cfg" if q else "Gen_Router_c01_dash_deep.cfg", dict(workers=6, timeout=1200, name="gen-dash")),
            ("RouterGen", "Gen_Router_c01_m.cfg", dict(workers=4)),
            ("RouterGen", "Gen_Router_c01_mount.cfg", dict(workers=6, timeout=1200)),
            ("RouterGen", "Gen_Router_c01_sim.cfg", dict(workers=4, simulate="num=%d" % (8 if q else 150), depth=16, name="gen-sim", timeout=1200))]
